@@ -1287,8 +1287,10 @@ func (x *Exec) findPred(env *SpecEnv, name string) *PredDef {
 			return p
 		}
 	}
-	for _, cf := range x.P.Contracts {
-		if p, ok := cf.Preds[name]; ok {
+	// other packages, in a fixed order (a name defined in several packages
+	// resolves deterministically; contract files should avoid such clashes)
+	for _, short := range sortedKeys(x.P.Contracts) {
+		if p, ok := x.P.Contracts[short].Preds[name]; ok {
 			return p
 		}
 	}
